@@ -92,6 +92,8 @@ def route(draw, n_msgs_hint=24, allow_post=True):
     """construction route + freshness state"""
     r = draw(st.sampled_from(["abs_sorted", "abs_ins", "rel", "abs_obj"]))
     d = {"route": r}
+    if r == "rel" and draw(st.integers(0, 2)) == 0:
+        d["split_waits"] = draw(st.lists(st.integers(0, 50), min_size=1, max_size=4))     # rests written as two WAITs
     if r == "abs_ins":
         d["perm"] = draw(st.lists(st.integers(0, 50), min_size=1, max_size=n_msgs_hint))
     if allow_post:
